@@ -72,12 +72,20 @@ def run(replay=None):
     chk = core.Check('C09', 'proof')
     thorough = chk.tier == 'thorough'
     chk.cov['rule'] = (
-        'covfie::algebra called directly (affine * vector, affine * affine, products of up to 4 transforms, translation / scaling / identity constructors, matrix * matrix in the shapes of the suite and others) '
+        'TRANSLATED: the loop programs of matrix::operator*, matrix::identity, affine::operator*(vector), affine::operator*(affine), affine::translation, affine::scaling and the affine layer\'s at() are '
+        're-read from the source on every run (tools/cxx_algebra.py -> Gen_Algebra.v) and proved to compute AlgebraCore\'s functions operation by operation (Refine_Algebra.v, any scalar operations, shapes up to 5x5 / N = 1..4). '
+        'CORRESPONDENCE: covfie::algebra called directly (affine * vector, affine * affine, products of up to 4 transforms, translation / scaling / identity constructors, matrix * matrix in the shapes of the suite and others) '
         'and the affine layer over the identity backend (which returns the transformed coordinate) and inside deeper stacks, N in 1..4, float and double. Matrices and vectors: small integers '
         '(all of {-2..2} exhaustively for N = 1, sampled for N >= 2: every operation is exact, so the result must EQUAL the exact rational A.x+t / the exact product), and arbitrary finite values '
         '(result within (N+3) ulp-units of the magnitude sum of the exact rational result; composition judged by applying the product to a vector and comparing with applying the factors in turn). '
         'Every case is also compared bit for bit with the model (AlgebraCore with Flocq arithmetic in the code\'s summation order; theorems C09_* hold of the same definitions over any commutative ring). '
         'A case = (operation, N, type, operands); non-trivial = N >= 2 or a non-zero translation; distinct by those.')
+    with core.Lock('coq'):
+        rep, tlog = core.translate()
+    for u in rep['untranslatable']:
+        if u['group'] == 'Algebra':
+            chk.obligation_broken('translation of ' + u['name'], u['why'])
+    chk.cov['algebra_programs_in_source'] = [t['name'] for t in rep.get('algebra', {}).get('translated', [])] if isinstance(rep.get('algebra'), dict) else None
     chk.prove('Properties_C09.v')
     r = chk.rng
     with core.Lock('ocaml'):
